@@ -455,7 +455,20 @@ func (H) Execute(scAny any, cfg simrt.Config, st *core.Stats) (*simrt.Outcome, *
 		return out, v
 	}
 	if out.Truncated {
-		return out, core.NoProgress(out)
+		anyStall := false
+		for _, st := range r.stalled {
+			anyStall = anyStall || st
+		}
+		if !anyStall {
+			return out, core.NoProgress(out)
+		}
+		// One holder stalls for ever (injected). Waiters that park end the run stuck;
+		// waiters of an implementation that spins (a ticket lock polling with
+		// runtime.Gosched) never park, and the run ends at the step budget instead. The
+		// statement does not say how to wait: judge both the same way - every
+		// unfinished task must be explained by the stalled holder.
+		st.Add("oracle.spinning_waiters_behind_stalled_holder", 1)
+		out.Stuck = true
 	}
 	if r.viol != "" {
 		sig := "mutual-exclusion"
